@@ -20,6 +20,9 @@ type event[TriggerFunc any] struct {
 	// link is the Hook to another event.
 	link *Hook[TriggerFunc]
 
+	// linkTarget is the event that the link hooks into.
+	linkTarget eventInterface[TriggerFunc]
+
 	// linkMutex is used to prevent concurrent access to the link.
 	linkMutex sync.Mutex
 
@@ -58,14 +61,23 @@ func (e *event[TriggerFunc]) linkTo(target eventInterface[TriggerFunc], triggerF
 	e.linkMutex.Lock()
 	defer e.linkMutex.Unlock()
 
+	// linking to the target the event is linked to already changes nothing: the existing hook stays in place (a trigger
+	// of the target that is in progress would neither reach a replacement - it was attached after the trigger began -
+	// nor the removed hook, so the event would miss a trigger of its unchanged target)
+	if e.link != nil && !IsInterfaceNil(target) && e.linkTarget == target {
+		return
+	}
+
 	if e.link != nil {
 		e.link.Unhook()
 	}
 
 	if IsInterfaceNil(target) {
 		e.link = nil
+		e.linkTarget = nil
 	} else {
 		e.link = target.Hook(triggerFunc)
+		e.linkTarget = target
 	}
 }
 
